@@ -161,6 +161,22 @@ func contract(g *SX, v any) string {
 		if x.Cmp(lo) < 0 || x.Cmp(hi) > 0 {
 			return bad("%v outside [%v, %v]", x, lo, hi)
 		}
+	case "f64", "f32":
+		// bounds and value are bit patterns; the contract is about the numbers
+		lo, hi := atoBig(g.List[1]).Uint64(), atoBig(g.List[2]).Uint64()
+		x := toBig(v).Uint64()
+		var fl, fh, fx float64
+		if g.Head() == "f64" {
+			fl, fh, fx = math.Float64frombits(lo), math.Float64frombits(hi), math.Float64frombits(x)
+		} else {
+			fl, fh, fx = float64(math.Float32frombits(uint32(lo))), float64(math.Float32frombits(uint32(hi))), float64(math.Float32frombits(uint32(x)))
+		}
+		if fx != fx || fx < fl || fx > fh {
+			return bad("%v outside [%v, %v]", fx, fl, fh)
+		}
+		if math.IsInf(fx, 0) && !math.IsInf(fl, 0) && !math.IsInf(fh, 0) {
+			return bad("infinite value %v for finite bounds [%v, %v]", fx, fl, fh)
+		}
 	case "sampled":
 		x := toBig(v).Int64()
 		if x < 0 || x >= int64(atoi(g.List[1])) {
